@@ -54,6 +54,11 @@ func fnName(f *ssa.Function) string {
 	if f.Object() != nil {
 		if tf, ok := f.Object().(*types.Func); ok {
 			n := tf.FullName()
+			if c, ok := canonObj[tf]; ok {
+				// report a renamed function under its baseline name
+				short := c[strings.LastIndex(c, ".")+1:]
+				n = n[:strings.LastIndex(n, ".")+1] + short
+			}
 			// strings.Builder and bytes.Buffer are interchangeable append-only string accumulators for
 			// the methods the rules look at; the rules are written for (*bytes.Buffer).
 			if strings.HasPrefix(n, "(*strings.Builder).") {
@@ -168,7 +173,7 @@ func (pv *Prov) of(v ssa.Value, depth int, seen map[ssa.Value]bool) *Expr {
 	case *ssa.FreeVar:
 		return &Expr{Op: "freevar", Val: v, Name: v.Name(), Type: v.Type()}
 	case *ssa.Global:
-		return &Expr{Op: "global", Val: v, Name: v.Pkg.Pkg.Name() + "." + v.Name(), Obj: v.Object(), Type: v.Type()}
+		return &Expr{Op: "global", Val: v, Name: v.Pkg.Pkg.Name() + "." + canonName(v.Object()), Obj: v.Object(), Type: v.Type()}
 	case *ssa.Function:
 		return &Expr{Op: "func", Val: v, Fn: v, Name: fnName(v), Type: v.Type()}
 	case *ssa.Call:
@@ -180,7 +185,7 @@ func (pv *Prov) of(v ssa.Value, depth int, seen map[ssa.Value]bool) *Expr {
 			// load
 			switch a := v.X.(type) {
 			case *ssa.Global:
-				return &Expr{Op: "global", Val: v, Name: a.Pkg.Pkg.Name() + "." + a.Name(), Obj: a.Object(), Type: v.Type()}
+				return &Expr{Op: "global", Val: v, Name: a.Pkg.Pkg.Name() + "." + canonName(a.Object()), Obj: a.Object(), Type: v.Type()}
 			case *ssa.FieldAddr:
 				// field (possibly nested) of a spilled local with a single whole-value store
 				var valueAt func(addr ssa.Value) *Expr
@@ -344,7 +349,7 @@ func fieldName(t types.Type, i int) string {
 		t = p.Elem()
 	}
 	if s, ok := t.Underlying().(*types.Struct); ok && i < s.NumFields() {
-		return s.Field(i).Name()
+		return canonName(s.Field(i))
 	}
 	return fmt.Sprintf("f%d", i)
 }
